@@ -2380,10 +2380,20 @@ class Flattener:
             any_change = True
         if _rename_param_copies(fi.node):
             any_change = True
+        from .loopnorm import canon_loops
+        lp_ = canon_loops(fi.node)
+        if lp_:
+            any_change = True
+            self.log.append("%s: loop(s) rewritten by lemma %s (binary digits by halving / Horner recomposition, sa/loopnorm.py)" % (fi.fq, "/".join(lp_)))
         from .bitnorm import canon_bit_allocation
         if canon_bit_allocation(fi.node):
             any_change = True
             self.log.append("%s: hand-written witness-bit allocation rewritten to PrivValBool form by lemma (D) (sa/bitnorm.py)" % fi.fq)
+        from .signnorm import canon_sign_test
+        sg = canon_sign_test(fi.node)
+        if sg:
+            any_change = True
+            self.log.append("%s: offset-binary sign test (%s) rewritten to the library form by lemma (F) (sa/signnorm.py)" % (fi.fq, sg))
         from .selnorm import canon_selector_designs
         lem = canon_selector_designs(fi.node)
         if lem:
